@@ -36,6 +36,7 @@ RULE = ("(a) every call sequence over {BeginMap, BeginList, AssembleKey, Assembl
         "scripts x one variant per injection point (repeated key in 3 forms, wrong-kind tries at keys, values and typed roots) + "
         "one with all points, on basicnode prototypes and, for Msg3 / {String:Msg3}, the same script on bindnode and gendemo; "
         "(c) Reset then a second build; (d) the typed family: fixed + random schema types x type-level values x legal scripts "
+        "(type level and representation level; containers arriving by Begin...Finish, as basicnode nodes or as same-engine nodes, mixed among siblings) "
         "x refused assign forms at one typed position per variant + a variant with ALL refused forms at ALL positions; distinct = distinct (engine, script); non-trivial = at least 3 calls")
 
 
